@@ -54,6 +54,7 @@ func Main() {
 	seed := flag.Uint64("seed", 1, "VERIF_SEED")
 	out := flag.String("out", "", "op file to write")
 	dist := flag.String("dist", "", "distribution json to write")
+	flag.StringVar(&GenmodDir, "genmod", "", "generated module of this run (C14)")
 	flag.Parse()
 	run, ok := Runners[*prop]
 	if !ok {
